@@ -5,3 +5,4 @@ pub mod report;
 pub mod seq;
 pub mod model;
 pub mod search;
+pub mod scc;
